@@ -150,3 +150,43 @@ Proof. vm_compute. reflexivity. Qed.
 (* " or" on the last line: raw_lines[i] raises IndexError *)
 Example pre_c_trailing_or : pre_c [[CChr 4; CSp; CChr 111; CChr 114]] = None.
 Proof. reflexivity. Qed.
+
+(* ------------------------------------------------------------------------------------ *)
+(* The pending line comment of get_numbered_lines (continuation-free core):
+
+       if raw_line.startswith("#"):
+           current_comment = raw_line[1:].strip()  if current_comment is None
+                             else current_comment + "\n" + raw_line[1:].strip()
+       if len(raw_line) == 0 or raw_line[0] == "#":  skip the line    (current_comment is KEPT)
+       ...
+       lines.append({..., "comment": current_comment});  current_comment = None
+
+   The comment travels in `_source_mapping` and becomes the `instructions` of the
+   generate_value action built for `$var = ...`, so it is part of what a file parses to.
+   A comment is the list of its lines (joined with "\n" by the code). *)
+
+Definition comment := option (list (list ch)).
+
+Definition add_comment (cm : comment) (t : list ch) : comment :=
+  match cm with None => Some [strip t] | Some c => Some (c ++ [strip t]) end.
+
+Fixpoint pre_cm_go (i : N) (cm : comment) (ls : list (list ch)) : list (nline * comment) :=
+  match ls with
+  | [] => []
+  | l :: r =>
+      match strip l with
+      | [] => pre_cm_go (i + 1) cm r
+      | CHash :: t => pre_cm_go (i + 1) (add_comment cm t) r
+      | s => ({| n_text := s; n_number := i + 1; n_ind := lead_sp l |}, cm) :: pre_cm_go (i + 1) None r
+      end
+  end.
+
+Definition pre_cm (ls : list (list ch)) : list (nline * comment) := pre_cm_go 0 None ls.
+
+Definition unnumbered_cm (x : nline * comment) : list ch * N * comment := (n_text (fst x), n_ind (fst x), snd x).
+
+(* "  # Extract the question.", "", "  # second line", "  $q = ..." *)
+Example pre_cm_ex :
+  map unnumbered_cm (pre_cm [[CSp; CSp; CHash; CSp; CChr 1; CSp]; []; [CSp; CHash; CChr 2]; [CSp; CSp; CChr 3]])
+  = [([CChr 3], 2, Some [[CChr 1]; [CChr 2]])].
+Proof. reflexivity. Qed.
